@@ -2,6 +2,14 @@ import Heathcliff.Proofs.C10H
 import Heathcliff.Proofs.C10I
 import Heathcliff.Proofs.GenRns2
 import Heathcliff.Proofs.GenRns5
+import Heathcliff.Proofs.GenRns8
+import Heathcliff.Proofs.GenRns11
+import Heathcliff.Proofs.GenRns14
+import Heathcliff.Proofs.GenRns16
+import Heathcliff.Proofs.GenRns19
+import Heathcliff.Proofs.GenRns20
+import Heathcliff.Proofs.GenRns21
+import Heathcliff.Proofs.GenRns22
 
 /- Property theorems only (statements verbatim; proofs are the helper lemmas of Heathcliff/Proofs). -/
 namespace HC.C10
@@ -168,5 +176,98 @@ theorem gen_fast_floor_eq : type_of% @HC.gr_fast_floor_eq := @HC.gr_fast_floor_e
 /-- END TO END (BEHZ small Montgomery reduction): generated `sm_mrq` composed with `smMrq_spec` and `smMrq_scalar`: position `i·n + j` of ANY destination
     buffer receives `((Y_j + q·r_j)/m̃) mod b_i`, `r_j` the centred representative of `−Y_j·q⁻¹ mod m̃`, and `m̃ ∣ Y_j + q·r_j` -/
 theorem gen_sm_mrq_montgomery : type_of% @HC.gr_sm_mrq_montgomery := @HC.gr_sm_mrq_montgomery
+
+/-! ### translator tie, phase 4k: `RNSTool::decrypt_scale_and_round` (Proofs/GenRns6.lean, GenRns7.lean, GenRns8.lean) -/
+
+/-- `RNSTool::decrypt_scale_and_round` generated from the source = `RNSTool.decryptScaleAndRound`; flat input of `|q|` components, ANY destination of `n`
+    words; the `Option` fields are `Some`, `base_t_gamma = [t, γ]`; its call `base_q_to_t_gamma_conv.as_ref().unwrap().fast_convert_array(..)` is the
+    generated `fast_convert_array` on the fields of the model's `qToTGamma`; the γ-correction traps on both sides alike -/
+theorem gen_decrypt_scale_and_round_eq : type_of% @HC.gr_decrypt_scale_and_round_eq := @HC.gr_decrypt_scale_and_round_eq
+/-- the two operand vectors `decrypt_scale_and_round` indexes have the lengths `RNSTool.new` gives them -/
+theorem gen_dsr_sizes_of_new : type_of% @HC.gr_dsr_sizes_of_new := @HC.gr_dsr_sizes_of_new
+/-- END TO END (BEHZ scale-and-round, BFV decryption): on a level whose tool is the level's BEHZ tool (`DecOK`), for every canonical input whose
+    coefficient `j` has CRT value `X j < Q`, the GENERATED function returns word `j` = `round(t·x̃_j/Q) mod t` (x̃ centred) under the γ-condition
+    `2γ|t·x̃ − Q·round(t·x̃/Q)| + 2kQ ≤ Qγ`; the destination buffer's old contents are irrelevant -/
+theorem gen_decrypt_scale_and_round_rounds {l : Level} (hd : DecOK l) {ph : RnsPoly} (hph : RnsCanon l ph) (dst : Poly) (hdst : dst.size = l.n)
+    (hops : l.tool.baseQ.size ≤ l.tool.prodTGammaModQ.size) (hnops : 2 ≤ l.tool.negInvQModTGamma.size)
+    (hsn : l.size * l.n < 2^64) (h2n : 2 * l.n < 2^64) (hs64 : l.size < 2^64)
+    (X : Nat → Nat)
+    (hX : ∀ j, j < l.n → X j < l.tool.baseQ.prod ∧ ∀ i, i < l.size → X j % (l.q i).value = (ph.getD i #[]).getD j 0)
+    (hnoise : ∀ j, j < l.n →
+      2 * (l.tool.gamma.value : Int) *
+          |(l.t.value : Int) * Spec.centred (X j) l.tool.baseQ.prod
+            - (l.tool.baseQ.prod : Int) * Spec.roundDiv ((l.t.value : Int) * Spec.centred (X j) l.tool.baseQ.prod) l.tool.baseQ.prod|
+        + 2 * (l.size : Int) * (l.tool.baseQ.prod : Int)
+      ≤ (l.tool.baseQ.prod : Int) * (l.tool.gamma.value : Int)) :
+    ∃ btg conv ig, l.tool.baseTGamma = some btg ∧ l.tool.qToTGamma = some conv ∧ l.tool.invGammaModT = some ig ∧
+    ∃ out, HC.GenR.decrypt_scale_and_round (HC.flatP ph) dst.toList l.tool.baseQ.size l.tool.baseQ.base.toList btg.size btg.base.toList l.tool.n
+        l.tool.prodTGammaModQ.toList l.tool.negInvQModTGamma.toList l.tool.t l.tool.gamma ig (HC.gr_convF conv) = .ok out ∧
+      out.length = l.n ∧ ∀ j, j < l.n →
+        out.getD j 0 = Spec.imod (Spec.roundDiv ((l.t.value : Int) * Spec.centred (X j) l.tool.baseQ.prod) l.tool.baseQ.prod) l.t.value :=
+  HC.gr_decrypt_scale_and_round_rounds hd hph dst hdst hops hnops hsn h2n hs64 X hX hnoise
+
+/-- `RNSTool::fastbconv_sk` (Shenoy–Kumaresan conversion Bsk → q) generated from the source = `RNSTool.fastbconvSk`; flat input of `|B| + 1` components, ANY
+    destination of `|q|` components; its two receiver calls are the generated `fast_convert_array` on the model's `bToQ` / `bToMsk`; the element borrow
+    `let dest = &mut destination[i * coeff_count + j]` is read as index + in-place access; every checked operation traps on both sides alike -/
+theorem gen_fastbconv_sk_eq : type_of% @HC.gr_fastbconv_sk_eq := @HC.gr_fastbconv_sk_eq
+/-- END TO END (exact window): if coefficient `j` holds the residues of an integer `V j` modulo the primes of `B` and modulo `m_sk` and
+    `2|V j| + 2·|B|·prod(B) ≤ prod(B)·m_sk`, the GENERATED `fastbconv_sk` writes `V j mod q_i` at position `i·n + j` of any destination buffer -/
+theorem gen_fastbconv_sk_exact : type_of% @HC.gr_fastbconv_sk_exact := @HC.gr_fastbconv_sk_exact
+
+/-- BRIDGE between the two generated files: `polymod::multiply_scalar_p` (generated into `Gen/PolyFns.lean`, block form `gen_poly_multiply_scalar_p_blocks`
+    of C02) on a flat buffer of `sq` components into a zeroed scratch buffer = component-wise `mulMod · s q_i` -/
+theorem gen_multiply_scalar_p_components : type_of% @HC.gr_msp_list := @HC.gr_msp_list
+/-- `RNSTool::fastbconv_m_tilde` generated from the source = `RNSTool.fastbconvMTilde`; it calls the GENERATED `multiply_scalar_p` and twice the generated
+    `fast_convert_array` (on the model's `qToBsk`, `qToMt`), each conversion writing a sub-slice of ANY destination buffer of `|Bsk| + 1` components -/
+theorem gen_fastbconv_m_tilde_eq : type_of% @HC.gr_fastbconv_m_tilde_eq := @HC.gr_fastbconv_m_tilde_eq
+/-- END TO END: all `|Bsk| + 1` outputs of the generated `fastbconv_m_tilde` are residues of ONE integer `[m̃·X_j]_Q + α_j·Q`, `α_j < |q|` -/
+theorem gen_fastbconv_m_tilde_crt : type_of% @HC.gr_fastbconv_m_tilde_crt := @HC.gr_fastbconv_m_tilde_crt
+
+/-! ### translator tie, phase 4k: `RNSBase::decompose`, `decompose_array` (Proofs/GenRns15.lean, GenRns16.lean) -/
+
+/-- `RNSBase::decompose` generated from the source = `RNSBase.decompose` on the value of the limbs (non-empty base: for the empty base, which
+    `RNSBase::new` refuses, the code returns the empty buffer and the model `#[v]`) -/
+theorem gen_rnsbase_decompose_eq : type_of% @HC.gr_rnsbase_decompose_eq := @HC.gr_rnsbase_decompose_eq
+/-- a value buffer whose length differs from the base's is refused (`assert_eq!`) -/
+theorem gen_rnsbase_decompose_refuses : type_of% @HC.gr_rnsbase_decompose_refuses := @HC.gr_rnsbase_decompose_refuses
+/-- END TO END with `decompose_spec_of`: the generated `decompose` returns the residues `x mod q_i` -/
+theorem gen_rnsbase_decompose_residues : type_of% @HC.gr_rnsbase_decompose_residues := @HC.gr_rnsbase_decompose_residues
+/-- `RNSBase::decompose_array` generated from the source (`iter().enumerate()`, `chunks(size).enumerate()` read as index loops): component `i` of the
+    result = `modulo_uint(value_j, q_i)`, `j < count` -/
+theorem gen_rnsbase_decompose_array_eq : type_of% @HC.gr_rnsbase_decompose_array_eq := @HC.gr_rnsbase_decompose_array_eq
+/-- END TO END: position `i·count + j` = `value_j mod q_i` -/
+theorem gen_rnsbase_decompose_array_residues : type_of% @HC.gr_rnsbase_decompose_array_residues := @HC.gr_rnsbase_decompose_array_residues
+
+/-! ### translator tie, phase 4k: `BaseConverter::exact_convey_array`, `RNSTool::decrypt_mod_t` (floats erased; Proofs/GenRns17.lean – GenRns19.lean) -/
+
+/-- `BaseConverter::exact_convey_array` generated from the source — its f64 pipeline replaced by the abstract function input `roundQ : List Nat → Nat` of
+    the scaled residues of one coefficient (table-declared reading, pinned to the exact float statements) — = the model's `exactConvey` on every
+    column, PROVIDED `roundQ` returns a u64 equal to the exact rational rounding `exactRound` on every coefficient -/
+theorem gen_exact_convey_array_eq : type_of% @HC.gr_exact_convey_array_eq := @HC.gr_exact_convey_array_eq
+/-- `RNSTool::decrypt_mod_t` generated from the source = `RNSTool.decryptModT` (same proviso) -/
+theorem gen_decrypt_mod_t_eq : type_of% @HC.gr_decrypt_mod_t_eq := @HC.gr_decrypt_mod_t_eq
+/-- END TO END (BGV decryption): the generated `decrypt_mod_t` returns the centred residue of `X j` modulo t (composition with C01's
+    `c01p_decryptModT_of_crt`), same proviso about the floating-point rounding -/
+theorem gen_decrypt_mod_t_centred : type_of% @HC.gr_decrypt_mod_t_centred := @HC.gr_decrypt_mod_t_centred
+
+/-- END TO END (BEHZ fast floor; the composition left open in phase 4f): the generated `fast_floor` writes `(⌊Y_j/Q⌋ − α_j) mod b_i` at `i·n + j` of ANY destination
+    buffer, ONE `α_j ∈ [0, |q|)` for all `b_i ∈ Bsk` (composition of `gen_fast_floor_eq` with `fastFloor_spec`, `fastFloor_scalar`, `RNSH.crt_sum`) -/
+theorem gen_fast_floor_floor : type_of% @HC.gr_fast_floor_floor := @HC.gr_fast_floor_floor
+
+/-- stepping stone for `RNSBase::compose` (not tied yet): the C08 word-layer function `util::multiply_uint_u64` (src/util/basic.rs; left out in phase 4d)
+    generated from the source = the hand model `multiplyUintU64`, for EVERY operand, word and result buffer (zero operand / one-word result / limb loop
+    with the final carry) -/
+theorem gen_multiply_uint_u64_eq (a : List Nat) (w : Nat) (r : List Nat) : HC.GenR.multiply_uint_u64 a w r = multiplyUintU64 a w r.length :=
+  HC.gr_multiply_uint_u64_eq a w r
+
+/-! ### translator tie, phase 4k: `RNSBase::compose` (generated into Gen/Rns2Fns.lean; Proofs/GenRns22.lean) -/
+
+/-- `RNSBase::compose` generated from the source (calls the generated `multiply_uint_u64`, `add_uint_mod_inplace`, `multiply_u64operand_mod`) = the hand
+    model's value-level `RNSBase.compose` on a well-formed base: the limbs left in `value` are the limbs of the model's value -/
+theorem gen_rnsbase_compose_eq : type_of% @HC.gr_rnsbase_compose_eq := @HC.gr_rnsbase_compose_eq
+/-- END TO END with `compose_spec`: for canonical residues the generated `compose` returns the limbs of THE integer below the product with these residues -/
+theorem gen_rnsbase_compose_crt : type_of% @HC.gr_rnsbase_compose_crt := @HC.gr_rnsbase_compose_crt
+/-- decompose ∘ compose = id on the GENERATED code -/
+theorem gen_decompose_compose : type_of% @HC.gr_decompose_compose_gen := @HC.gr_decompose_compose_gen
 
 end HC.C10
